@@ -206,6 +206,16 @@ FAMILIES = dict(fan=fam_fan, polygon=fam_polygon, grid=fam_grid, delaunay=fam_de
                 torus=fam_torus, two_holes=fam_disk_with_two_holes)
 
 
+def build(fam, params):
+    """family member -> (V, F); the generic option flip=1 reverses the orientation of every face"""
+    params = dict(params)
+    flip = params.pop('flip', 0)
+    V, F = FAMILIES[fam](**params)
+    if flip:
+        F = [(f[0], f[2], f[1]) for f in F]
+    return V, F
+
+
 def disk_family(seed, thorough):
     s = seed
     L = [('polygon', dict(n=3)), ('polygon', dict(n=4)), ('polygon', dict(n=7, perm=s + 1)),
@@ -218,15 +228,17 @@ def disk_family(seed, thorough):
          ('delaunay', dict(npts=12, seed=s)), ('delaunay', dict(npts=25, seed=s + 1, perm=s + 8)),
          ('delaunay', dict(npts=30, seed=s + 2, carve=6)), ('delaunay', dict(npts=40, seed=s + 3, carve=14, perm=s + 9)),
          ('delaunay', dict(npts=35, seed=s + 4, lift=0.6, carve=4)), ('delaunay', dict(npts=80, seed=s + 5, carve=10, perm=s + 10)),
+         ('fan', dict(n=5, flip=1)), ('grid', dict(nu=4, nv=3, jitter=0.1, seed=s + 4, flip=1, perm=s + 12)),
+         ('delaunay', dict(npts=20, seed=s + 6, carve=5, flip=1)), ('grid', dict(nu=3, nv=4, ears=2, flip=1)),
          ('cap', dict(rings=1, sectors=5)), ('cap', dict(rings=2, sectors=7, perm=s + 11)), ('cap', dict(rings=3, sectors=11, height=1.5))]
     if thorough:
         rnd = random.Random(seed + 12345)
         for k in range(40):
             L.append(('delaunay', dict(npts=rnd.randint(6, 90), seed=rnd.randrange(10 ** 6), carve=rnd.choice([0, 2, 5, 12, 25]),
-                                        lift=rnd.choice([0.0, 0.0, 0.4, 1.0]), perm=rnd.randrange(1, 10 ** 6))))
+                                        lift=rnd.choice([0.0, 0.0, 0.4, 1.0]), perm=rnd.randrange(1, 10 ** 6), flip=int(k % 3 == 0))))
         for k in range(25):
             L.append(('grid', dict(nu=rnd.randint(2, 9), nv=rnd.randint(2, 9), jitter=rnd.choice([0.0, 0.1, 0.25, 0.35]), seed=rnd.randrange(10 ** 6),
-                                    ears=rnd.choice([0, 0, 1, 2, 3, 5]), perm=rnd.randrange(0, 10 ** 6))))
+                                    ears=rnd.choice([0, 0, 1, 2, 3, 5]), perm=rnd.randrange(0, 10 ** 6), flip=k % 2)))
         for n in (8, 10, 11, 12, 14, 15, 16, 17, 21):
             L.append(('fan', dict(n=n, perm=rnd.randrange(10 ** 6), lift=rnd.choice([0.0, 0.7]))))
         for k in range(8):
@@ -395,7 +407,7 @@ def run_lib(m, mode, cotan, corners, custom_arr):
 
 def evaluate(fam, params, mode, cotan):
     """-> dict clause -> error string or None ('blocked' clauses are absent), plus stats"""
-    V, F = FAMILIES[fam](**params)
+    V, F = build(fam, params)
     m = make_mesh(V, F)
     P = np.array([[float(x) for x in m.vertices[i]] for i in range(len(m.vertices))])
     Fm = [tuple(int(v) for v in f) for f in m.faces]
@@ -464,7 +476,7 @@ def evaluate(fam, params, mode, cotan):
 
 
 def evaluate_reject(fam, params, mode, cotan):
-    V, F = FAMILIES[fam](**params)
+    V, F = build(fam, params)
     try:
         m = make_mesh(V, F)
     except Exception:
